@@ -619,14 +619,17 @@ fn main() {
     for (suffix, hostile_rounds, option, pairs, history, consistent, random) in [("", 3u64, 40u64, 960u64, 80u64, 400u64, 400u64),
         ("+", ctx.tier.pick(50, 1500), ctx.tier.pick(300, 20_000), ctx.tier.pick(12_000, 400_000), ctx.tier.pick(2_000, 60_000), ctx.tier.pick(6_000, 200_000), ctx.tier.pick(6_000, 200_000))] {
         // the samples written out come from the coverage phase: 2 hostile, 3 pairs, 2 consistent
-        run_cases(&ctx, &replay, &mut rep, &format!("hostile{suffix}"), hostile_rounds * nc, |rng, rep, i| hostile_case(rng, rep, i, &cells));
+        // every bulk workload has its own deadline (a share of the wall-clock budget), so that a slow machine thins out
+        // all of them instead of starving the last ones
+        let until = |share: f64| { let mut c = ctx.clone(); c.budget = ctx.budget.mul_f64(share); c };
+        run_cases(&until(0.30), &replay, &mut rep, &format!("hostile{suffix}"), hostile_rounds * nc, |rng, rep, i| hostile_case(rng, rep, i, &cells));
         rep.samples.truncate(2);
-        run_cases(&ctx, &replay, &mut rep, &format!("option{suffix}"), option, |rng, rep, _| option_case(rng, rep));
-        run_cases(&ctx, &replay, &mut rep, &format!("pairs{suffix}"), pairs, |rng, rep, i| pair_case(rng, rep, i));
+        run_cases(&until(0.32), &replay, &mut rep, &format!("option{suffix}"), option, |rng, rep, _| option_case(rng, rep));
+        run_cases(&until(0.60), &replay, &mut rep, &format!("pairs{suffix}"), pairs, |rng, rep, i| pair_case(rng, rep, i));
         rep.samples.truncate(5);
-        run_cases(&ctx, &replay, &mut rep, &format!("history{suffix}"), history, |rng, rep, i| history_case(rng, rep, i));
-        run_cases(&ctx, &replay, &mut rep, &format!("consistent{suffix}"), consistent, |rng, rep, i| consistent_case(rng, rep, i));
-        run_cases(&ctx, &replay, &mut rep, &format!("random{suffix}"), random, |rng, rep, i| random_case(rng, rep, i));
+        run_cases(&until(0.72), &replay, &mut rep, &format!("history{suffix}"), history, |rng, rep, i| history_case(rng, rep, i));
+        run_cases(&until(0.86), &replay, &mut rep, &format!("consistent{suffix}"), consistent, |rng, rep, i| consistent_case(rng, rep, i));
+        run_cases(&until(1.0), &replay, &mut rep, &format!("random{suffix}"), random, |rng, rep, i| random_case(rng, rep, i));
         if rep.samples.len() >= 3 { rep.max_samples = rep.samples.len(); }
     }
     let _ = std::fs::remove_dir_all(&dir);
